@@ -19,6 +19,7 @@ HEAD = r'''/-
   `BitVec 64` for `usize`, `BitVec 128` for the `u128` amount of `rotate_right`), hypotheses in BitVec order.
 -/
 import CC.Null.Lemmas
+import CC.Null.Src
 namespace CC.Thm.C19
 open CC CC.Null CC.Null.Lemmas
 '''
@@ -342,10 +343,47 @@ example : (U32x4.extract ⟨1#32, 2#32, 3#32, 4#32⟩ 4#64).isPanic = true := by
 end CC.Thm.C19
 '''
 
+def source_section():
+    """`source_null_match`: the conjunction of the obligations `CC.Src.src_null_*` of lean/CC/Null/Src.lean (one per
+    regenerated definition of lean/CC/Gen/NullSrc.lean), statements copied from there"""
+    import re
+    src = open(ROOT + "/lean/CC/Null/Src.lean").read()
+    obl = re.findall(r"^theorem (src_null_\w+) : ([^\n]*?) :=", src, re.M)
+    assert len(obl) >= 87, len(obl)
+    stmts = [st.replace("Gen.NullSrc.", "CC.Gen.NullSrc.").replace("Null.U", "CC.Null.U").replace("CC.CC.", "CC.")
+                .replace("null_items_expected", "CC.Src.null_items_expected").replace("null_structs_expected", "CC.Src.null_structs_expected")
+             for _, st in obl]
+    out = """
+/-! ## source tie -/
+
+/-- **Source tie.**  Every public and private method and every trait-impl method of every type of
+    /repo/utils-simd/ppv-null/src/lib.rs — the bodies of `define_vec1!`, `define_vec2!`, `define_vec4!`, `zipmap_impl!` with the
+    arguments of each instantiation substituted (`u128x1`, `u128x2`, `u32x4`, `u64x4`) and the hand-written `u32x4x4` —, as
+    TRANSLATED from the Rust source on every run (tools/inventory_null.py → `CC.Gen.NullSrc`), equals the model definition
+    the theorems above are about: as FUNCTIONS, hence for both profiles where the definition takes one (`debug_assert*`
+    is a guard in profile debug only, `xs[i]` a guard on the length in every profile, `<<` `>>` `-` overflow-checked in debug
+    and masked / wrapping in release, closures handed to `map` / `zipmap` inlined).  Nothing was outside the translator's
+    language (`null_errors = []`), the list of items (structs, derives, methods with visibility, trait impls) and the struct
+    shapes are the modelled ones.  Individual facts: `CC.Src.src_null_*` (lean/CC/Null/Src.lean). -/
+theorem source_null_match :
+"""
+    out += " ∧\n".join("    (%s)" % st for st in stmts) + " :=\n"
+    names = ["CC.Src." + n for n, _ in obl]
+    lines, cur = [], "  ⟨"
+    for i, n in enumerate(names):
+        piece = n + (", " if i + 1 < len(names) else "⟩")
+        if len(cur) + len(piece) > 118:
+            lines.append(cur.rstrip())
+            cur = "   "
+        cur += piece
+    lines.append(cur)
+    return out + "\n".join(lines) + "\n"
+
+
 def vec4(t, T, w):
     return VEC4.replace("@t@", t).replace("@T@", T).replace("@w@", str(w))
 
-src = HEAD + U128X1 + U128X2 + vec4("u32x4", "U32x4", 32) + vec4("u64x4", "U64x4", 64) + U32X4X4 + EXAMPLES
+src = HEAD + U128X1 + U128X2 + vec4("u32x4", "U32x4", 32) + vec4("u64x4", "U64x4", 64) + U32X4X4 + source_section() + EXAMPLES
 open(ROOT + "/lean/CC/Thm/C19.lean", "w").write(src)
 import re
 names = re.findall(r"^theorem (\w+)", src, re.M)
